@@ -74,7 +74,8 @@ TEnv ==
                                        ELSE LastNone]
             [] OTHER -> L
   /\ F' = IF E.op = "setstmts" THEN {} ELSE F
-  /\ prev' = NoPrev
+  \* padding the logs with copies of their own records changes nothing a build may depend on (C02 still applies)
+  /\ prev' = IF E.op = "inflate" THEN prev ELSE NoPrev
   /\ UNCHANGED <<meta, FT, iv, relax, taint, afterCrash, tw, viol, stats>> /\ Step
 
 \* -- Invoke ----------------------------------------------------------------
@@ -419,7 +420,7 @@ TTool ==
          misordered == \E k \in DOMAIN seq : seq[k] \in Ids(g) /\ \E q \in Producers(g, T, L0, seq[k]) : ~\E a \in 1..(k - 1) : seq[a] = q
          vs == (IF E.started THEN {V("C19", "a read-only tool executed a build command: -t " \o E.tool, "")} ELSE {})
                \cup (IF E.pre # E.tree THEN {V("C19", "a read-only tool changed a file of the build directory: -t " \o E.tool, "")} ELSE {})
-               \cup (IF ~E.logsame THEN {V("C19", "a read-only tool changed the build log, the deps log or left a lock file: -t " \o E.tool, "")} ELSE {})
+               \cup (IF ~E.logsame THEN {V("C19", "a read-only tool changed the meaning of the build log or of the deps log, or left a lock file: -t " \o E.tool, "")} ELSE {})
                \cup (IF E.rc # 0 /\ E.tool # "missingdeps" THEN {V("C19", "a read-only tool failed on a loadable manifest: -t " \o E.tool, "")} ELSE {})
                \cup (IF E.tool = "commands" /\ E.rc = 0 /\ ToS(seq) # need
                      THEN {V("C19", "-t commands does not list the commands a from-scratch build of the targets runs",
